@@ -186,6 +186,8 @@ struct Obs {
 	len: usize,
 	seen: Vec<Option<f64>>,
 	params: Vec<f64>,
+	/// `previous_value()` of each parameter after the update: what the chunk interpolates from
+	prevs: Vec<f64>,
 	/// false while a late link's hand-over tween may still be running
 	settled: bool,
 }
@@ -207,6 +209,7 @@ impl Effect for ReaderEffect {
 		let _d = Disarm::new();
 		let mut seen = vec![];
 		let mut params = vec![];
+		let mut prevs = vec![];
 		for ((v, dur), p) in self.late.drain(..).zip(self.params.iter_mut()) {
 			p.set(
 				v,
@@ -222,12 +225,14 @@ impl Effect for ReaderEffect {
 			p.update(dt * input.len() as f64, info);
 			seen.push(info.modulator_value(*id));
 			params.push(p.value());
+			prevs.push(p.previous_value());
 		}
 		self.log.lock().unwrap().push(Obs {
 			callback: CALLBACK_NO.load(Ordering::SeqCst),
 			len: input.len(),
 			seen,
 			params,
+			prevs,
 			settled,
 		});
 	}
@@ -397,6 +402,8 @@ pub fn run_case(case: &Case) -> CaseResult {
 		links: Vec<(usize, MapS)>,
 		first_cb: u64,
 		last_params: Vec<Option<f64>>,
+		/// the value each parameter had at the end of the previous chunk
+		last_values: Vec<Option<f64>>,
 		_track: kira::track::TrackHandle,
 	}
 	let mut readers: Vec<Reader> = vec![];
@@ -511,6 +518,7 @@ pub fn run_case(case: &Case) -> CaseResult {
 						links,
 						first_cb: cb,
 						last_params: vec![None; n],
+						last_values: vec![None; n],
 						_track: t,
 					});
 				}
@@ -703,6 +711,23 @@ pub fn run_case(case: &Case) -> CaseResult {
 							let seen = o.seen[li];
 							let got_param = o.params[li];
 							trace.f64(got_param);
+							// continuity: every chunk interpolates from the previous chunk's final value -
+							// also while the modulator is missing and the value is merely held
+							if let Some(lv) = r.last_values[li] {
+								if o.prevs[li].to_bits() != lv.to_bits() && !(o.prevs[li] == lv) {
+									res.fail(Violation::new(
+										"linked-parameter",
+										"linked-parameter-not-continuous",
+										format!(
+											"op {oi} (callback {cb}) chunk {k}: the parameter linked to modulator {mi} interpolates this chunk from {} although it ended the previous chunk at {lv} (modulator {})",
+											o.prevs[li],
+											if want.is_some() { "present" } else { "gone" }
+										),
+									));
+									break 'ops;
+								}
+							}
+							r.last_values[li] = Some(got_param);
 							match want {
 								Some(v) => {
 									let mut tol = 1e-9 * (1.0 + v.abs());
@@ -816,6 +841,7 @@ impl Check for C17 {
 			assumptions: vec![
 				"LFO parameters change by instant commands (their own tweens are C06's subject); waveform shapes follow the formulas pinned by the repository's unit tests".into(),
 				"tolerance 1e-9 relative; easings with power < 1 get an extra 1e-4 of the output range (infinite slope at 0)".into(),
+				"continuity: previous_value() of every linked parameter equals its value() at the end of the previous chunk, whether the modulator exists or the value is held".into(),
 				"readers are sub-track effects, processed after all modulators of the chunk; modulator-to-modulator links are only generated from earlier to later modulators (not generated here at all)".into(),
 			],
 			components: vec![
